@@ -1,3 +1,4 @@
 import Cgm.Lemmas.AuditCmd
 import Cgm.E2E.C13
+import Cgm.E2E.C13b
 #audit_namespace Cg.E2E.C13
